@@ -197,6 +197,14 @@ fn inner(w: &mut World, db: usize, name: &str, a: &[Bytes], reply: &Reply) -> Re
         }
         "XRANGE" | "XREVRANGE" => {
             // XRANGE key start end [COUNT n]
+            if a.len() == 5 {
+                // a trailing option without its value: ferrous documents a lenient option
+                // syntax here; only "some reply" is required
+                return (match reply {
+                    Reply::Frame(_) => Ok(()),
+                    _ => chk_err(reply),
+                });
+            }
             if a.len() != 4 && a.len() != 6 {
                 return (chk_err(reply));
             }
